@@ -96,8 +96,22 @@ fn expr_variants(e: &Expr, funcs: &[Func], out: &mut Vec<Expr>) {
                 out.push((**a).clone());
                 out.push((**b).clone());
             }
-            wrap(out, a, &|v| Expr::Cmp(*op, Box::new(v), b.clone()));
-            wrap(out, b, &|v| Expr::Cmp(*op, a.clone(), Box::new(v)));
+            let logical = matches!(op, CmpOp::LAnd | CmpOp::LOr);
+            let mut vs = Vec::new();
+            expr_variants(a, funcs, &mut vs);
+            for v in vs {
+                // a constant left operand of && / || lets the checker drop the right one
+                if !logical || has_var_leaf(&v) {
+                    out.push(Expr::Cmp(*op, Box::new(v), b.clone()));
+                }
+            }
+            let mut vs = Vec::new();
+            expr_variants(b, funcs, &mut vs);
+            for v in vs {
+                if !logical || has_var_leaf(&v) {
+                    out.push(Expr::Cmp(*op, a.clone(), Box::new(v)));
+                }
+            }
         }
         Expr::Red(op, a) => {
             if width(a, funcs) == 1 {
